@@ -39,6 +39,14 @@ CHECKS.append({
     "technique": "Coq proof (permutation invariance, minimality of the histogram, tournament argument) + regenerated tables + model/implementation correspondence",
 })
 
+CHECKS.append({
+    "property_id": "C13",
+    "text": "Coq theorem over an executable model of evaluate_constexpr/evaluate_operator/evaluate_cast: for every constant expression tree of any depth over the IR's operators and every scalar kind, in debug and release builds, the table-driven evaluator equals the reference evaluator with HLSL semantics (32-bit wrap-around, masked shift counts, exact 128-bit literal arithmetic, C comparisons, the conversion rules), no integer arm can abort on overflow / shift count / MIN/-1, and division or modulus by zero is not a constant. Every arm's Rust operator (bare, wrapping_*, checked_*) is regenerated from evaluator.rs on every run and must pass a decidable agreement check against the reference for all operators x operand kinds. The unrepaired evaluator (bare + - * << >> % and negation) fails that check; repaired by a fix: commit. The evaluator is compared with the model on systematic boundary-operand tables and random typed expression trees, in debug and release builds of the harness.",
+    "design_ref": "DESIGN.md §4 C13",
+    "note": "Trusted: Coq kernel + Flocq (real-number axioms of the standard library appear under Print Assumptions for statements that mention float constants), the reference semantics in coq/model/Evaluator.v and EvalSem.v, the translator's reading of each arm's expression shape, extraction + drivers. Positions other than const initialisers (array sizes, enum values, case labels, template arguments) are not yet driven separately.",
+    "technique": "Coq proof (structural induction over expression trees + decidable per-arm agreement with the reference) + regenerated operator tables + model/implementation correspondence",
+})
+
 _claimed = {c["property_id"] for c in CHECKS}
 NOT_APPLICABLE = [
     {"property_id": p, "reason": "not yet claimed: model/theorems under construction (see DESIGN.md build order); no check registered until it passes on the unchanged tree"}
